@@ -44,7 +44,7 @@ class GetBlockchainState(Contract):
 
     def nine_queries(g, old):
         """seven hash selectors in the firmware's numbering, then difficulty, then flags"""
-        return (frame_n(g, old, 9)
+        return (frame_n(g, old, 9) and ok(g)
                 and asked(g, old, 0, bytes([1, 0x01])) and asked(g, old, 1, bytes([1, 0x02]))
                 and asked(g, old, 2, bytes([1, 0x03])) and asked(g, old, 3, bytes([1, 0x05]))
                 and asked(g, old, 4, bytes([1, 0x81])) and asked(g, old, 5, bytes([1, 0x82]))
@@ -68,9 +68,7 @@ class GetBlockchainState(Contract):
     ensures = [nine_queries, hashes_verbatim, hash_answers_wellformed, difficulty_and_flags]
 
     def x_some(g, old): return frame_some(g, old)
-    def x_other_or_malformed(g): return classify(g) == K_OTHER or classify(g) == K_OK
-    raises = PROPAGATE(x_some, skip=[ERR_DONGLE])
-    raises[ERR_DONGLE] = Exc(args=[STR_], post=[x_some, x_other_or_malformed])
+    raises = PROPAGATE(x_some)       # malformed answers are excluded by A-DEV-WF: HSM2DongleError <=> K_OTHER
 
 
 @native
@@ -97,11 +95,7 @@ class GetSignerParameters(Contract):
                 and result.min_required_difficulty == be_int(d[32:68]) and result.network == d[68])
     ensures = [exch, layout_32_36_1]
 
-    def x_other_or_malformed(g):
-        d = g.last_resp[3:]
-        return classify(g) == K_OTHER or (ok(g) and (len(d) != 69 or not (d[68] == 1 or d[68] == 2 or d[68] == 3)))
-    raises = PROPAGATE(exch, skip=[ERR_DONGLE])
-    raises[ERR_DONGLE] = Exc(args=[STR_], post=[exch, x_other_or_malformed])
+    raises = PROPAGATE(exch)
 
 
 @contract("ledger/hsm2dongle.py", "HSM2Dongle.connect", serves=["C09", "C11", "C03"])
